@@ -36,6 +36,57 @@ func pendingRewards(w *World, ctx sdk.Context) []sdk.Coins {
 	return out
 }
 
+// settledByCallback returns the destination positions whose rewards the slash callback
+// has just claimed (pending redelegations out of the slashed validator), and checks
+// that nothing is claimable for them right afterwards: a claim is idempotent, the
+// callback must not re-create an entitlement it has just paid.
+func checkCallbackClaimsIdempotent(x *Exec, prop string, op *Op) {
+	if x.L.LastSlashFrac == nil || x.L.LastSlashHookErr != "" {
+		return
+	}
+	pre, post := x.Pre(), x.Post()
+	w := x.W
+	seen := map[string]bool{}
+	for _, r := range x.L.Redel {
+		if r.S != op.V || r.Completion.Before(pre.Time) {
+			continue
+		}
+		d, ok := post.FindDel(r.D, r.T, r.Denom)
+		if !ok || seen[d.Key()] {
+			continue
+		}
+		seen[d.Key()] = true
+		a, ok := post.Assets[r.Denom]
+		if !ok || post.Time.Before(a.RewardStartTime) {
+			continue
+		}
+		if _, ok := pre.FindDel(r.D, r.T, r.Denom); !ok {
+			continue
+		}
+		c, _ := x.Ctx.CacheContext()
+		addr := sdk.MustAccAddressFromBech32(d.Del)
+		b0 := w.App.BankKeeper.GetAllBalances(c, addr)
+		var err error
+		func() {
+			defer func() {
+				if rc := recover(); rc != nil {
+					err = fmt.Errorf("panic: %v", rc)
+				}
+			}()
+			_, err = w.MsgSrv.ClaimDelegationRewards(c, alliancetypes.NewMsgClaimDelegationRewards(d.Del, d.Val, d.Denom))
+		}()
+		if err != nil {
+			continue
+		}
+		b1 := w.App.BankKeeper.GetAllBalances(c, addr)
+		x.Label(strings.ToLower(prop) + ":callback-claim-idempotence-probed")
+		if !b1.Equal(b0) {
+			got, _ := b1.SafeSub(b0...)
+			x.Fail(prop, "idempotent", "the slash callback has just settled the rewards of position %s, yet an immediate claim pays %s again", d.Key(), got)
+		}
+	}
+}
+
 // ---------- C13 ----------
 
 type entKey struct {
@@ -232,7 +283,19 @@ func (o *OracleC13) After(x *Exec, op *Op, res *Res) {
 	pre, post := x.Pre(), x.Post()
 	w := x.W
 	now := pendingRewards(w, x.Ctx)
+	for _, dn := range post.AssetOrder {
+		if degenerateAsset(post, dn) || degenerateAsset(pre, dn) {
+			// Listed finding F-C04a: an asset with staked total but no validator shares (100% slash
+			// of every holder) is treated by the module as fully staked on EVERY validator and
+			// absorbs a share of every validator's rewards. Entitlements are not judged there.
+			x.KnownFinding("F-C04a")
+			x.Label("excluded:c13-ownerless-value-state")
+			o.taint(x)
+			return
+		}
+	}
 	if (op.K == KSlash || op.K == KSlashHook) && x.L.LastSlashFrac != nil {
+		checkCallbackClaimsIdempotent(x, "C13", op)
 		o.taint(x)
 		return
 	}
@@ -517,6 +580,9 @@ func (o *OracleC12) After(x *Exec, op *Op, res *Res) {
 	s := x.Post()
 	if op.K == KBlock {
 		o.deposits++
+	}
+	if op.K == KSlash || op.K == KSlashHook {
+		checkCallbackClaimsIdempotent(x, "C12", op)
 	}
 	if o.pendingTaint {
 		o.pendingTaint = false
